@@ -317,3 +317,8 @@ func c05TxTime(c *Ctx) {
 		c.R.Errorf("expected Transactional Begin/Commit/Rollback implementations in package sqlite, found %d begin / %d end", len(begins), len(ends))
 	}
 }
+
+func init() {
+	byProp["C05"] = append(byProp["C05"], "C03.commit-order", "C15.conn")
+	explain["C05"] += " Shared: commit-order (C03: a commit cannot report failure after its version PUT succeeded, so 'a failing commit leaves the bucket without a new version' and the local rollback agree with the bucket) and conn (C15: the transaction's fixed write time is really installed into the request context, whatever other attribute is set)."
+}
